@@ -71,7 +71,7 @@ func c08Setup(rc *RunCtx) simrt.Config {
 	c.pSilentKill = pick(0, 20, 60)
 	c.pCloseInFlight = pick(0, 0, 20)
 	c.idleKill = []time.Duration{0, 0, 500 * time.Millisecond, 2 * time.Second}[r.Choose(4)]
-	c.gapMax = pick(0, 5, 3000)
+	c.gapMax = pick(0, 5, 3000, 9000) // up to 9 s: longer than a reply timeout, shorter than the idle timeout
 	if c.kind == TkPipelineStream {
 		// queue limit of a connection that is still dialing (never above the
 		// established connection's own limit)
@@ -174,6 +174,17 @@ func c08Main(rc *RunCtx) {
 		}
 	}
 	rc.Net.OnEvent = func(e simnet.Event) {
+		if e.Kind == "write_timeout" && e.Side == "c" {
+			// The client's own (stale) write deadline failed a write at once on a
+			// connection the server has not touched: the attempt failed although
+			// the connection did not. Such attempts eat the retry budget (four of
+			// them fail a query without a fresh connection ever being tried).
+			cc := rc.Net.Conns()[e.Conn]
+			if !cc.Peer().IsClosed() {
+				rc.Fail("attempt_failed_on_healthy_connection", "connection %d: a query write failed with an already expired write deadline at t=%v although the server had not closed or killed the connection", e.Conn, e.At)
+			}
+			return
+		}
 		if e.Kind == "close" || e.Kind == "rst" || e.Kind == "silent_kill" {
 			c.closeEv = append(c.closeEv, closeEvent{e.Conn, e.Step})
 		}
@@ -203,7 +214,9 @@ func c08Main(rc *RunCtx) {
 		simrt.Recv(0, done)
 	}
 	if c.burst > 0 && c.gapMax > 0 {
-		simrt.Sleep(0, time.Duration(simrt.Choose(c.gapMax+1))*time.Millisecond)
+		// (the half millisecond keeps call starts off the instants at which idle
+		// timeouts expire: every other duration here is whole milliseconds)
+		simrt.Sleep(0, time.Duration(simrt.Choose(c.gapMax+1))*time.Millisecond+500*time.Microsecond)
 	}
 	if c.burst > 0 && c.massKill {
 		// every connection the burst left behind dies at once (server restart, NAT
@@ -226,7 +239,7 @@ func c08Main(rc *RunCtx) {
 			for s := 0; s < c.perCall[ci] && rc.Viol == nil; s++ {
 				runCall(ci, s)
 				if c.gapMax > 0 {
-					simrt.Sleep(0, time.Duration(simrt.Choose(c.gapMax+1))*time.Millisecond)
+					simrt.Sleep(0, time.Duration(simrt.Choose(c.gapMax+1))*time.Millisecond+500*time.Microsecond)
 				}
 			}
 			simrt.Send(0, done, struct{}{})
